@@ -2,8 +2,8 @@ package main
 
 import (
 	"flag"
-	"go/types"
 	"fmt"
+	"go/types"
 	"os"
 	"sort"
 	"strings"
